@@ -20,7 +20,7 @@ func HashName(label string, ha uint8, iter uint16, salt string) string {
 	wireSalt = wireSalt[:n]
 
 	name := make([]byte, 255)
-	off, err := PackDomainName(strings.ToLower(label), name, 0, nil, false)
+	off, err := PackDomainName(asciiLower(label), name, 0, nil, false)
 	if err != nil {
 		return ""
 	}
